@@ -12,6 +12,17 @@ CLAIMED = {
     note="Alphabet {/ : . a l p q 2}; strings up to length 5 (quick) / 6 (thorough) plus ~1 500 structured longer strings; 84-label universe for match sets; three or four current packages. Trusted: TLC, the transcription of docs/reference/labels.md into Labels.tla, Go's encoding/json."),
 }
 
+WALK_NOTE = ("Exhaustive: all DAGs up to 3 nodes (quick) / 4 nodes (thorough) in topological numbering, every dependency-closed selection, every failing subset, fail-fast on/off, 1..2 workers, external cancel on the 3-node family. "
+             "Conformance: seeded gate schedules (7 policies incl. free-running) on random DAGs up to 6 (quick) / 12 (thorough) nodes inside a testing/synctest bubble; schedules beyond the TLC bound are sampled, not exhaustive. "
+             "Trusted: TLC, testing/synctest's quiescence detection, the event hooks sitting inside the critical sections they report, the in-process task standing for the shell command.")
+for pid, title, text in (
+  ("C03", "DepsFirst / AtMostOnce / WorkerBound", "Walker.tla models graph_walker.go + task_worker_pool.go + the callback wiring of execute.go one action per critical section; TLC checks DepsFirst, WorkerBound and AtMostOnce over every interleaving for all small DAGs; the real walker and pool are then run under hundreds to thousands of controlled goroutine schedules and every recorded step must be a step of the specification (a dependant released early, a second take, a task on a busy or out-of-range worker slot is rejected at that event)."),
+  ("C04", "deadlock freedom / Resolved / NoLostSignal / NoRace / stable returned map", "TLC's deadlock check plus Resolved, NoLostSignal, NoRace on every interleaving of all small DAGs (termination under weak fairness in the thorough tier); on the real code a hang is a deterministic verdict (all gates released, no timer left, Walk not returned inside the synctest bubble), panics, fatal concurrent-map errors and Go race detector reports in repository frames are violations, and the size of the completion map handed to the caller must equal the snapshot the specification prescribes."),
+  ("C05", "KeepGoing / NeverBelowFailure / FailureRecorded / StopsStarts", "TLC checks that in keep-going mode everything not below a failure completes and nothing below a failure is ever called, that a failure is recorded as a failure, and that once the walker context is cancelled (fail-fast or interrupt) no task observes a live context; trace validation enforces the same on the real walker: a cancel without a failed ancestor, a failure swallowed as cancellation, a command started after the fail-fast cancel are rejected at that event."),
+):
+    CLAIMED[pid] = dict(engine="walker", technique="explicit TLA+ specification of the walker/pool checked exhaustively with TLC; trace validation of the real code under controlled goroutine schedules (synctest + gate hooks) against the same specification",
+        category="model_checking", design_ref="DESIGN.md section 4.1, section 7 " + pid, text=text, note=WALK_NOTE)
+
 PENDING = "check not built yet in this round (specification and binding planned in DESIGN.md section 7); not claimed until its quick tier is registered"
 
 checks, na = [], []
@@ -45,6 +56,7 @@ manifest = {
    "add_only": True,
  },
  "engines": [
+   {"name": "walker", "path": "spec/Walker.tla + spec/WalkerTrace.tla + harness/walkdrv + vlib/walker_engine.py", "serves_properties": ["C03", "C04", "C05"], "kind_free_text": "exhaustive TLC over all small DAGs; trace validation of real executions under controlled schedules"},
    {"name": "labels", "path": "spec/Labels.tla + harness/cmd/h/labels.go + vlib/checks/c17.py", "serves_properties": ["C17"], "kind_free_text": "TLC-enumerated function specification, reference table replayed into the real API"},
  ],
  "checks": checks,
